@@ -14,7 +14,12 @@ import (
 // chain ExactFlags ⊑ ExactLines ⊑ AnyPointer ⊑ AnyValue.
 func c05Check(s *stack.Snapshot) (crossLevel bool, big bool, err error) {
 	parts := make([]map[int]int, len(allLevels))
-	for li, l := range allLevels {
+	// The reference keys come from a pristine copy, and the levels are aggregated from the
+	// coarsest to the finest on the same snapshot: what a coarse aggregation does must not
+	// influence a later, finer one.
+	pristine := cloneSnapshot(s)
+	for li := len(allLevels) - 1; li >= 0; li-- {
+		l := allLevels[li]
 		a := s.Aggregate(l)
 		p, err := partitionOf(a)
 		if err != nil {
@@ -23,7 +28,7 @@ func c05Check(s *stack.Snapshot) (crossLevel bool, big bool, err error) {
 		parts[li] = p
 		keys := make([]string, len(s.Goroutines))
 		for i, g := range s.Goroutines {
-			keys[i] = refKey(g, l)
+			keys[i] = refKey(pristine.Goroutines[i], l)
 			if _, ok := p[g.ID]; !ok {
 				return false, false, fmt.Errorf("%s: goroutine %d is in no bucket", levelNames[l], g.ID)
 			}
@@ -136,9 +141,9 @@ func singleDiffUniverse() ([]GM, []string) {
 		return GM{State: "semacquire", ElideAt: -1,
 			Frames: []FrameM{
 				{Pkg: "main", Name: "f", File: "/a/f.go", Line: 10, PCOff: 1, Args: ArgListM{Items: []ArgM{{Val: 0xc000010000}, {Val: 7}, {Agg: &ArgListM{Items: []ArgM{{Val: 0xc000030000}, {Val: 3}}}}}}},
-				{Pkg: "net/http", Name: "(*T).M", File: "/b/m.go", Line: 20, PCOff: 2, Args: ArgListM{Items: []ArgM{{Val: 0x1}}}},
+				{Pkg: "net/http", Name: "(*T).M", File: "/src/b/m.go", Line: 20, PCOff: 2, Args: ArgListM{Items: []ArgM{{Val: 0x1}}}},
 			},
-			Creator: &CreatorM{Pkg: "main", Name: "spawn", File: "/a/s.go", Line: 5, PCOff: 3}}
+			Creator: &CreatorM{Pkg: "main", Name: "spawn", File: "/src/a/s.go", Line: 5, PCOff: 3}}
 	}
 	var u []GM
 	var names []string
@@ -154,12 +159,14 @@ func singleDiffUniverse() ([]GM, []string) {
 	add("base", func(g *GM) {})
 	add("state", func(g *GM) { g.State = "select" })
 	add("creator func", func(g *GM) { g.Creator.Name = "spawn2" })
-	add("creator file", func(g *GM) { g.Creator.File = "/a/t.go" })
+	add("creator file", func(g *GM) { g.Creator.File = "/src/a/t.go" })
 	add("creator line", func(g *GM) { g.Creator.Line = 6 })
 	add("no creator", func(g *GM) { g.Creator = nil })
 	add("frame func", func(g *GM) { g.Frames[1].Name = "(*T).N" })
-	add("frame file", func(g *GM) { g.Frames[1].File = "/c/m.go" })
+	add("frame file", func(g *GM) { g.Frames[1].File = "/src/c/m.go" })
 	add("frame line", func(g *GM) { g.Frames[0].Line = 11 })
+	add("frame path above the parent directory", func(g *GM) { g.Frames[1].File = "/other/b/m.go" })
+	add("creator path above the parent directory", func(g *GM) { g.Creator.File = "/other/a/s.go" })
 	add("stack length", func(g *GM) { g.Frames = g.Frames[:1] })
 	add("elided", func(g *GM) { g.ElideAt = 2; g.ElideN = 3 })
 	add("argument count", func(g *GM) { g.Frames[1].Args.Items = append(g.Frames[1].Args.Items, ArgM{Val: 2}) })
@@ -292,7 +299,7 @@ func TestC05(t *testing.T) {
 	st.count(cnt, nt)
 	st.class("single_difference_tuples", cnt)
 	st.exhaustive(fmt.Sprintf("all ordered pairs and triples over a universe of %d goroutines differing from a base in exactly one attribute (%v) x 4 levels", len(u), names), cnt)
-	st.sample(map[string]any{"single_difference_triple": []string{names[0], names[18], names[25]}})
+	st.sample(map[string]any{"single_difference_triple": []string{names[0], names[20], names[27]}})
 	a := c05Rand
 	a.Checks = n(2500, 60000)
 	a.Run(t)
